@@ -127,6 +127,7 @@ def run(tier, seed):
     # live: the real start_server on 127.0.0.1, both backends, fast and stalled readers of a 6 MiB static file
     import livetls
     livetls.run_slow_readers(res, tier)
+    livetls.run_exact_maximum(res, tier, "C06")
     res.rule += (" | live: start_server in its own process, 6 MiB static file, raw TLS client with a 32 KiB receive buffer that reads the header, "
                  "stalls (0 s, 3 s; thorough also 12 s and 33 s; and 2.5 s against asyncio's TLS shutdown timeout compressed to 1 s) and then drains")
     return res
